@@ -341,6 +341,23 @@ def assemble_item(d, info, src, srcfile_label, log):
                 raise Undecided(f"{d.path}: subst: `{frm}` not found -- anchor lost")
             for m_ in hits:
                 add(start + m_.start(), start + m_.end(), to, "MONO")
+    for o in d.opts:
+        if o.startswith("param("):
+            # `param(K=>name)`: the contract talks about the K-th parameter (0 = the receiver) under the name `name`; if the
+            # source calls it something else (a harmless rename, e.g. `_compress` for an unused parameter), the identifier is
+            # alpha-renamed in the extracted text (PARAM_NAME) instead of losing the unit
+            k_, newname = [x.strip() for x in o[6:-1].split("=>")]
+            ps = it.get("params", [])
+            if int(k_) >= len(ps):
+                raise Undecided(f"{d.path}: param({k_}=>{newname}): the function has only {len(ps)} parameters -- anchor lost")
+            sp = ps[int(k_)]["span"]
+            m_ = re.match(rb"\s*(mut\s+)?([A-Za-z_]\w*)\s*:", src[sp[0]:sp[1]])
+            if not m_:
+                raise Undecided(f"{d.path}: param({k_}=>{newname}): parameter is not a plain identifier")
+            oldname = m_.group(2).decode()
+            if oldname != newname:
+                for h_ in re.finditer(rb"(?<![\.\w])" + re.escape(oldname.encode()) + rb"\b", src[start:end]):
+                    add(start + h_.start(), start + h_.end(), newname, "PARAM_NAME")
     if d.opt("desugar(debug_assert)"):
         # `debug_assert!(c)` -> `debug_assert_holds(c)`: the debug-build assertion becomes an obligation (the unit's
         # prelude declares `fn debug_assert_holds(c: bool) requires c`); Verus has no `debug_assert!`
